@@ -217,7 +217,10 @@ def _check_proved_in(path, ex):
             have |= _clauses_of(sp.text)
     for sp in ex.splices:
         if sp.kind == 'sig':
-            missing = _clauses_of(sp.text) - have
+            # a (single-line) clause labelled `//# (assumed ...` is an explicit extra assumption of this unit: it is exempt from the
+            # literal check (and is reported as assumed like every clause of an @assume_body contract)
+            own = '\n'.join(l for l in sp.text.split('\n') if '//# (assumed' not in l)
+            missing = _clauses_of(own) - have
             if missing:
                 raise SidecarError('%s: clause(s) assumed for %s are not proved in unit %s: %s' % (path, fn, ex.proved_in, sorted(missing)))
 
